@@ -309,10 +309,17 @@ fn extract_source_map<R: Read>(
 ) -> OriginalSourceMap {
     let mut source_map_comment = None;
     let mut source: Option<SourceMap> = None;
+    // the comment map is a concurrent hash map: its iteration order changes from run to run, so
+    // when several comments qualify the one that comes last in the file is taken, as tools do
+    let mut last_pos = None;
     for trailing in comments.trailing.iter() {
         for comment in trailing.iter() {
             let trim_comment = comment.text.trim();
             if trim_comment.starts_with(SOURCE_MAP_URL) {
+                if last_pos.is_some_and(|pos| comment.span.lo <= pos) {
+                    continue;
+                }
+                last_pos = Some(comment.span.lo);
                 source_map_comment = Some(String::from(comment.text.as_str()));
                 let url = trim_comment.get(SOURCE_MAP_URL.len()..).unwrap();
                 source = decode_data_url(url)
